@@ -251,7 +251,7 @@ ComponentMsgs == {18, 19, 20, 21, 142}
 InitDec(base, mode) ==
     [ base |-> base, mode |-> mode, phase |-> "hdr", pos |-> base + 1, dend |-> 0, hdr |-> [st |-> "none"],
       defs |-> [l \in 0..15 |-> NoDef], ts |-> TsNone, accs |-> AccsZero,
-      ftype |-> -1, fileid |-> << >>, fileids |-> 0, creator |-> << >>, hascreator |-> FALSE, tc |-> << >>, hastc |-> FALSE,
+      ftype |-> -1, fileid |-> << >>, fileidskip |-> {}, fileids |-> 0, creator |-> << >>, creatorskip |-> {}, hascreator |-> FALSE, tc |-> << >>, tcskip |-> {}, hastc |-> FALSE,
       cnt |-> << >>, single |-> << >>, unkm |-> << >>, unkf |-> << >>, nrec |-> 0,
       crc |-> 0, filecrc |-> 0,
       verdict |-> "run", why |-> "" ]
@@ -275,9 +275,9 @@ Deliver(dec, d, r) ==
         msg == x.r.msg
     IN
     IF m = MFileId THEN
-        [dec |-> [dec EXCEPT !.fileid = msg, !.fileids = @ + 1], out |-> NoOut]
-    ELSE IF m = MFileCreator THEN [dec |-> [dec EXCEPT !.creator = msg, !.hascreator = TRUE], out |-> NoOut]
-    ELSE IF m = MTimestampCorrelation THEN [dec |-> [dec EXCEPT !.tc = msg, !.hastc = TRUE], out |-> NoOut]
+        [dec |-> [dec EXCEPT !.fileid = msg, !.fileidskip = x.r.skip, !.fileids = @ + 1], out |-> NoOut]
+    ELSE IF m = MFileCreator THEN [dec |-> [dec EXCEPT !.creator = msg, !.creatorskip = x.r.skip, !.hascreator = TRUE], out |-> NoOut]
+    ELSE IF m = MTimestampCorrelation THEN [dec |-> [dec EXCEPT !.tc = msg, !.tcskip = x.r.skip, !.hastc = TRUE], out |-> NoOut]
     ELSE IF m \in CommonMsgs \/ slot.m # m THEN [dec |-> dec, out |-> NoOut]
     ELSE IF slot.list = 1 THEN
         LET c == Bump(dec.cnt, slot.name) IN
@@ -354,7 +354,7 @@ Step(in, avail, dec) ==
                IF ~d.known THEN [dec |-> d1, out |-> [kind |-> "unknown", m |-> d.m]]
                ELSE IF dec.phase = "fid_data" THEN
                    LET t == IF S(0, 0) \in DOMAIN r.msg THEN r.msg[S(0, 0)][1] ELSE 255
-                       d2 == [d1 EXCEPT !.fileid = r.msg, !.fileids = 1, !.ftype = t, !.phase = "recs"]
+                       d2 == [d1 EXCEPT !.fileid = r.msg, !.fileidskip = r.skip, !.fileids = 1, !.ftype = t, !.phase = "recs"]
                    IN  IF d.m # MFileId THEN [dec |-> Stop(d1, "either", "second record not file_id"), out |-> NoOut]
                        ELSE IF dec.mode = "fileid" THEN [dec |-> Stop(d2, "accept", "file_id"), out |-> NoOut]
                        ELSE IF ~ValidFileType(t) THEN [dec |-> Stop(d2, "reject", "file type"), out |-> NoOut]
